@@ -225,7 +225,10 @@ fn judge(s: &Spec, verdict: Option<bool>, obs: &Obs) -> Vec<(String, String)> {
     let asked_cookie = obs.packets.iter().filter(|(_, p)| matches!(p, Pkt::LoginCookieRequest { key } if key == "passage:authentication")).count();
     let should_ask = s.intent == 3 && s.secret_hex.is_some();
     // (judged on connections that got as far as the Encryption Request: one that ended before had no occasion to ask)
-    if flag.is_some() && ((asked_cookie == 1) != should_ask || asked_cookie > 1) {
+    // (asking for the cookie is harmless and "optional" in the protocol order; not asking where a valid cookie would
+    // have to be honoured is C10's business. Only asking twice is out of order.)
+    let _ = should_ask;
+    if flag.is_some() && asked_cookie > 1 {
         bad("auth-cookie-request".into(), format!("authentication cookie requested {asked_cookie} times; intent {} secret configured {}", s.intent, s.secret_hex.is_some()));
     }
     let class = if s.kind == "body" { format!("{}:{}", s.kind, s.text) } else if s.kind == "age" { format!("age:{}", if s.n == s.expiry as i64 { "at-expiry" } else if s.n < s.expiry as i64 { "younger" } else { "older" }) } else { s.kind.clone() };
